@@ -131,6 +131,12 @@ Relative(sc, units, du, u, k) ==
   LET r == u.runs[k] pl == sc.plan[r.c] IN
   IF r.h < 0 THEN   \* an instance used interleaved with (h > -1000) or concurrently to (h <= -1000) other instances:
                     \* PegRuntime!Confinement - it shows what it shows when used alone
+     IF r.h <= -2000 THEN <<>>   \* the solo reference of a history with a second Parse (PegRuntime!ParseAgain)
+     ELSE IF r.h > -1000 /\ -r.h <= Len(sc.inter) /\ sc.inter[-r.h].twice
+     THEN LET S == {j \in 1..Len(u.runs) : u.runs[j].i = r.i /\ u.runs[j].h = r.h - 2000 /\ u.runs[j].s = r.s} IN
+          IF S = {} THEN <<Mis("C14", "no-solo-reference", u, r, "", "")>>
+          ELSE CmpFrom("C14", u, r, u.runs[CHOOSE j \in S : TRUE], 1, <<"ok", "pn", "tk", "et", "ex", "as", "pr">>)
+     ELSE
      LET S == {j \in 1..Len(u.runs) : u.runs[j].i = r.i /\ u.runs[j].c = 1 /\ u.runs[j].h = 0} IN
      IF S = {} THEN <<>> ELSE CmpFrom("C14", u, r, u.runs[CHOOSE j \in S : TRUE], 1, <<"ok", "pn", "tk", "et", "ex", "as", "pr">>)
   ELSE IF u.opt # "" /\ r.h > 0 THEN   \* reuse of an optimised / -noast parser: against its own fresh run
